@@ -51,10 +51,10 @@ ENSURES = [
 NAMES_OK = "name != '.' and name != '?' and resname != '.' and resname != '?'"
 
 
-def _variant(tag, group, alt, icode, charge, element):
+def _variant(tag, group, alt, icode, charge, element, chain="A"):
     harness("C10",
             params={"group": Const(group), "serial": Int, "name": NameTok(1, 4), "alt": alt, "resname": NameTok(1, 3),
-                    "chain": Const("A"), "resseq": Int, "icode": icode, "x": Real, "y": Real, "z": Real, "occ": Real,
+                    "chain": Const(chain), "resseq": Int, "icode": icode, "x": Real, "y": Real, "z": Real, "occ": Real,
                     "b": Real, "element": Const(element), "charge": charge},
             requires=[FITS, NAMES_OK], ensures=ENSURES, name=f"atom_site_line.parse.{tag}", budget=60000)(cif_row_roundtrip)
 
@@ -62,6 +62,9 @@ def _variant(tag, group, alt, icode, charge, element):
 _variant("alt.ATOM", "ATOM", OneOf(MISSING_DOT, Const("B")), Const("?"), Const("?"), "C")
 _variant("icode.HETATM", "HETATM", Const("."), OneOf(MISSING_Q, Const("C")), Const(None), "FE")
 _variant("charge.ATOM", "ATOM", Const(""), Const(None), OneOf(MISSING_Q, Const("1"), Const("-2"), Const("0")), "C")
+# label_asym_id of two characters (every entry with more than 26 asym groups - polymers, ligands and waters each get
+# one): the record is one column too long and cannot be parsed - known finding C-asym-two-chars owns this variant
+_variant("asym2.ATOM", "ATOM", Const("."), Const("?"), Const("?"), "C", chain="AA")
 
 
 # ---------------------------------------------------------------- model numbers: distinct, in file order
